@@ -53,6 +53,15 @@ def make_cases(tier, seed, groups):
             for d in range(1, maxd + 1):
                 cases.append({"group": "value", "fen": fen, "moves": ms, "specs": ["d%d" % d]})
                 cases.append({"group": "value", "fen": fen, "moves": ms, "specs": ["d%dx" % d]})
+    if "material" in groups:
+        # every small material signature, both sides to move: depth 2 (cache on and off), depth 3 on the even ones
+        import positions as PP
+        fam = PP.material_families(seed % 3, 2 if tier == "quick" else 6)
+        for i, (name, fen) in enumerate(fam):
+            cases.append({"group": "material", "fen": fen, "moves": [], "specs": ["d2"], "family": name})
+            cases.append({"group": "material", "fen": fen, "moves": [], "specs": ["d2x"], "family": name})
+            if i % 2 == 0:
+                cases.append({"group": "material", "fen": fen, "moves": [], "specs": ["d3", "d2"], "family": name})
     if "budget" in groups:
         # C13 / C09: every node budget up to the size of the full search
         chosen = [pos[i] for i in (0, 2, 5, 7, 13)] if tier == "quick" else pos[:14]
@@ -81,6 +90,15 @@ def make_cases(tier, seed, groups):
             # no time limit given and the clock jumps by four months at the K-th leaf: nothing may change (C16_clock_free)
             for k in (ks[0::4] if tier == "quick" else ks[2::4]):
                 cases.append({"group": "cut", "fen": fen, "moves": ms, "specs": ["d%dk%d" % (d, k)], "depth": d})
+    if "cut" in groups:
+        # engine-only, EXHAUSTIVE over the cut point: the clock / a stop / movetime strikes at the K-th leaf evaluation for every K
+        # (strided above a cap) on tactical positions (checks at the horizon, captures pending); judged by the prefix property
+        tact = ["3q2k1/5ppp/8/8/Q7/8/P4PPP/4R1K1 w - - 0 1", "r3k2r/p1ppqpb1/bn2pnp1/3PN3/1p2P3/2N2Q1p/PPPBBPPP/R3K2R w KQkq - 0 1",
+                "6k1/5ppp/8/8/8/8/5PPP/R5K1 w - - 0 1", "r1bqkb1r/pppp1ppp/2n2n2/4p2Q/2B1P3/8/PPPP1PPP/RNB1K1NR w KQkq - 4 4",
+                "8/2p5/3p4/KP5r/1R3p1k/8/4P1P1/8 w - - 0 1"]
+        for fen in tact:
+            for d in (1, 2):
+                cases.append({"group": "cutx-probe", "fen": fen, "moves": [], "specs": ["d%d" % d], "depth": d, "nomodel": True})
     if "timer" in groups:
         # C09: the time-management budget for both colours
         for i in range(24 if tier == "quick" else 400):
@@ -256,7 +274,7 @@ def compare_case(case, eng, mod):
     return div
 
 
-def run(tier, seed, groups=("value", "budget", "seq", "cut", "timer")):
+def run(tier, seed, groups=("value", "budget", "seq", "cut", "timer", "material")):
     ok, mlog = C.coq_make(MODEL_TARGETS)
     if not ok:
         return {"error": "model does not build", "log": mlog[-3000:]}
@@ -284,6 +302,15 @@ def run(tier, seed, groups=("value", "budget", "seq", "cut", "timer")):
                 for n in budgets:
                     extra.append({"group": "budget", "fen": c["fen"], "moves": c["moves"],
                                   "specs": ["d%dn%d" % (c["depth"], n)], "full": full})
+        for c, e in zip(cases, eng):
+            if c["group"] == "cutx-probe" and e["results"] and not e["results"][0].get("panic"):
+                full = e["results"][0]["nodes"]
+                cap = 400 if tier == "quick" else 4000
+                step = max(1, full // cap + (1 if full % cap else 0)) if full > cap else 1
+                for kind in "csm":
+                    for k in range(1 + (seed % step), full + 1, step):
+                        extra.append({"group": "cutx", "fen": c["fen"], "moves": [], "specs": ["d%d%s%d" % (c["depth"], kind, k)],
+                                      "depth": c["depth"], "nomodel": True})
         if extra:
             cases = cases + extra
             eng = eng + run_engine(extra)
